@@ -6,6 +6,30 @@ use std::cell::Cell;
 
 thread_local! {
     static SMALL: Cell<bool> = const { Cell::new(false) };
+    static WEAK_USED: Cell<bool> = const { Cell::new(false) };
+}
+
+/// has the current case degraded the unique tables' hash (sticky until `clear_weak_used`)?
+pub fn weak_used() -> bool {
+    WEAK_USED.with(|s| s.get())
+}
+
+pub fn clear_weak_used() {
+    WEAK_USED.with(|s| s.set(false));
+}
+
+/// number of hash classes for the unique tables.  The library counts probe distances in a u8
+/// (known limit, DESIGN 6.7): with overflow checks (profile `mon`) exceeding it panics, which
+/// `Ctx::run_case` recognises and counts as an abandoned case; without (profile `monrel`) it
+/// would wrap silently and corrupt the table -- an artefact of the injection, not of rsdd --
+/// so there the classes are numerous enough that no class comes anywhere near 255 nodes.
+pub fn weak_classes(rng: &mut crate::rng::Rng, profile: &str, many_nodes: bool) -> u64 {
+    match (profile == "monrel", many_nodes) {
+        (false, false) => *rng.pick(&[16u64, 32, 64, 128]),
+        (false, true) => *rng.pick(&[256u64, 1024]),
+        (true, false) => *rng.pick(&[256u64, 512]),
+        (true, true) => *rng.pick(&[2048u64, 8192]),
+    }
 }
 
 pub fn init() {
@@ -30,4 +54,34 @@ pub fn set_lru_bits(bits: Option<usize>) {
 pub fn reset() {
     set_unique(None);
     set_lru_bits(None);
+}
+
+/// Fault injection on hash quality (hooks H6/H7) for the duration of a case: every unique table
+/// that hashes its elements itself maps the hash into `unique` classes, the lossy ITE cache maps
+/// the hash of a triple into `ite` classes.  Reset on drop (also when a case unwinds).  The
+/// library's probe-length counter is a u8 (a known limit, DESIGN 6.7), so the callers keep the
+/// number of nodes per class far below 255.
+pub struct WeakHash;
+
+impl WeakHash {
+    pub fn new(unique: Option<u64>, ite: Option<u64>) -> WeakHash {
+        rsdd::verif::set_unique_table_hash_classes(unique);
+        rsdd::verif::set_ite_hash_classes(ite);
+        if unique.is_some() {
+            WEAK_USED.with(|s| s.set(true));
+        }
+        let _ = rsdd::verif::take_unique_hash_clashes();
+        WeakHash
+    }
+    /// probes that met an element with the same 64-bit hash and another value since `new`
+    pub fn clashes(&self) -> u64 {
+        rsdd::verif::take_unique_hash_clashes()
+    }
+}
+
+impl Drop for WeakHash {
+    fn drop(&mut self) {
+        rsdd::verif::set_unique_table_hash_classes(None);
+        rsdd::verif::set_ite_hash_classes(None);
+    }
 }
